@@ -254,22 +254,27 @@ def _hash_read(obj, g):
     return v, (('err ' + err) if err else oc.hv(v))
 
 
+def _coarse(v, h):
+    return h if h.startswith('err') else oc.hv_coarse(v)
+
+
 def serve_fresh(req):
     seed, tier = req['seed'], req['tier']
     bm = _build_map(seed, tier)
     spec = req['obj']
     obj, _ = make_object(seed, bm, spec, {})
     names = one_time_names(type(obj))
-    res = {}
+    res, resc = {}, {}
     for g in (req.get('getters') or names):
         a, _ = make_object(seed, bm, spec, {})
-        ha = _hash_read(a, g)[1]
+        va, ha = _hash_read(a, g)
+        resc[g] = _coarse(va, ha)
         if req.get('twice'):
             b, _ = make_object(seed, bm, spec, {})
             hb = _hash_read(b, g)[1]
             ha = ha if ha == hb else 'nonrepro'
         res[g] = ha
-    return {'getters': res, 'names': names, 'ctor': [g for g in names if g in obj.__dict__], 'cls': type(obj).__name__}
+    return {'getters': res, 'coarse': resc, 'names': names, 'ctor': [g for g in names if g in obj.__dict__], 'cls': type(obj).__name__}
 
 
 def _token(v):
@@ -338,6 +343,7 @@ def serve_session(req):
                 old = obj.__dict__.get(g)
                 v, h = _hash_read(obj, g)
                 rec['h'] = h
+                rec['hc'] = _coarse(v, h)
                 if not h.startswith('err'):
                     rec['stored'] = g in obj.__dict__ and obj.__dict__[g] is v
                     rec['memo'] = (not was) or (old is v)
@@ -470,6 +476,7 @@ class Refs:
         for k, a in zip(ks, ans):
             if k in self.have:
                 self.have[k]['getters'].update(a['getters'])
+                self.have[k].setdefault('coarse', {}).update(a.get('coarse', {}))
             else:
                 self.have[k] = a
             if todo[k] is None:
@@ -482,6 +489,15 @@ class Refs:
 
     def value(self, key, g):
         return self.get(key, g)['getters'].get(g, 'missing')
+
+    def coarse(self, key, g):
+        return self.get(key, g).get('coarse', {}).get(g, 'missing')
+
+    def same(self, key, g, h, hc):
+        """is a read (fine hash h, coarse hash hc) the reference value?  Bitwise, or — both sides come from different
+        processes — up to ~1e-9 of the magnitude"""
+        ref = self.value(key, g)
+        return ref == 'nonrepro' or h == ref or (hc is not None and hc == self.coarse(key, g))
 
 
 def needed(sessions):
@@ -556,7 +572,7 @@ def judge(session, recs, refs, pre):
                 out.append(('%s/%s/%s/computed-at-construction' % (pre, who, g), 'building %s already stored `%s`' % (who, g), i))
         elif k == 'r':
             ref = refs.value(st[i][1], op[2])
-            if ref != 'nonrepro' and rec['h'] != ref:
+            if not refs.same(st[i][1], op[2], rec['h'], rec.get('hc')):
                 refused = any(o2[0] == 'x' and o2[1] == op[1] for o2 in session['ops'][:i]) and \
                     not any(o2[0] == 'i' and o2[1] == op[1] for o2 in session['ops'][max(j for j, o2 in enumerate(session['ops'][:i]) if o2[0] == 'x' and o2[1] == op[1]):i])
                 out.append(('%s/%s/%s/%s' % (pre, who, op[2], 'differs-after-refused-set_input' if refused else 'differs-from-fresh-process'),
@@ -668,7 +684,7 @@ def family_impl(session, recs, table, refs):
             if h.startswith('err'):
                 s = 'e' if h == ref else 'E'
             else:
-                s = '1' if (h == ref or ref == 'nonrepro') else '0'
+                s = '1' if refs.same(st[i], op[2], h, rec.get('hc')) else '0'
             toks.append('%d:s=%s:t=%d' % (gid[op[2]], s, t))
         else:
             toks.append('surv=%s:t=%d' % (il(gid[g] for g in rec.get('surv', []) if g in gid), t))
@@ -704,8 +720,8 @@ def cmp_family(impl, model):
                     continue
                 if sy == '1' and sx != '1':
                     return False
-                if sy == 'r' and sx not in ('e', 'E'):
-                    return False
+                # (model `r`: the getter raises on the analyzer's FIRST input; which getters raise depends on the data —
+                # after set_input the estimate may converge — and is judged by the fresh-process oracle, not here)
         return True
     except Exception:
         return False
